@@ -1,0 +1,73 @@
+//go:build verif
+
+package core
+
+import (
+	"fmt"
+	"sort"
+	"strings"
+
+	"github.com/jsightapi/jsight-api-core/directive"
+	"github.com/jsightapi/jsight-api-core/jerr"
+)
+
+// VerifScanOnly runs only the scanning phase (lexemes -> directive tree). Read-only helper
+// for verification harnesses; compiled only under the verif tag.
+func (core *JApiCore) VerifScanOnly() *jerr.JApiError {
+	return core.scanProject()
+}
+
+// VerifContextChain returns the chain of open context directives, innermost first,
+// as "Keyword" or "Keyword(" when the context was opened explicitly.
+func (core *JApiCore) VerifContextChain() []string {
+	var out []string
+	for d := core.currentContextDirective; d != nil; d = d.Parent {
+		out = append(out, verifName(d))
+	}
+	return out
+}
+
+func verifName(d *directive.Directive) string {
+	n := d.Type().String()
+	if d.HasExplicitContext {
+		n += "("
+	}
+	return n
+}
+
+// VerifTree dumps the directive forest in preorder, one "depth:Type[(]" entry per directive:
+// the scanned tree (expanded=false; macros appended sorted by name) or the tree after PASTE
+// expansion (expanded=true). With coords=true each entry also carries the keyword's byte index.
+func (core *JApiCore) VerifTree(expanded bool, coords bool) []string {
+	var out []string
+	var walk func(d *directive.Directive, depth int)
+	walk = func(d *directive.Directive, depth int) {
+		e := fmt.Sprintf("%d:%s", depth, verifName(d))
+		if coords {
+			e += fmt.Sprintf("@%d", d.KeywordError("").Index)
+		}
+		out = append(out, e)
+		for _, c := range d.Children {
+			walk(c, depth+1)
+		}
+	}
+	if expanded {
+		for _, d := range core.directivesWithPastes {
+			walk(d, 0)
+		}
+		return out
+	}
+	for _, d := range core.directives {
+		walk(d, 0)
+	}
+	names := make([]string, 0, len(core.macro))
+	for n := range core.macro {
+		names = append(names, n)
+	}
+	sort.Strings(names)
+	for _, n := range names {
+		out = append(out, "macro "+strings.TrimSpace(n))
+		walk(core.macro[n], 0)
+	}
+	return out
+}
